@@ -35,7 +35,7 @@ MIN_EVAL = {'quick': 2000, 'thorough': 60000}
 REQUIRED_COUNTERS = ['class:hand-built', 'class:decoded', 'class:edited', 'class:shuffled', 'class:reified-text', 'class:wide',
                      'dereified_something',
                      'op:re', 'op:de', 'op:ra', 'op:ib', 'changed']
-MODELS_R = ['default', 'amr', 'amr', 'mini', 'rand1', 'rand2', 'amr', 'rand5', 'miniroot']
+MODELS_R = ['default', 'amr', 'amr', 'mini', 'rand1', 'rand2', 'amr', 'rand5', 'miniroot', 'altconcept']
 R_AMR = [':ARG0', ':ARG1', ':ARG2', ':mod', ':domain', ':op1', ':op2', ':polarity', ':quant',
          ':name', ':consist-of', ':time', ':location', ':poss', ':beneficiary', ':role',
          ':employed-by', ':accompanier', ':age', ':cause', ':subset', ':superset', ':r0', ':r1', ':k']
